@@ -38,7 +38,19 @@ pub struct Cx<'tcx> {
 impl<'tcx> Cx<'tcx> {
     fn raw_path(&self, did: DefId) -> String {
         let s = with_no_visible_paths!(with_crate_prefix!(with_no_trimmed_paths!(self.tcx.def_path_str(did))));
-        fix_crate(s, &self.krate)
+        let s = fix_crate(s, &self.krate);
+        if s.contains("::_::") || s.ends_with("::_") {
+            // items inside anonymous consts (`const _: () = { .. }`, e.g. serde derives) collide when printed; keep
+            // the disambiguators of the def path
+            let dp = self.tcx.def_path(did);
+            let mut out = self.tcx.crate_name(did.krate).to_string();
+            for d in dp.data.iter() {
+                out.push_str("::");
+                out.push_str(d.as_sym(true).as_str());
+            }
+            return out;
+        }
+        s
     }
     /// Canonical, crate-independent path of a definition. Associated items of impls are
     /// printed as `<Self as Trait>::name` / `AdtPath::name`; items nested in bodies (closures,
@@ -52,7 +64,13 @@ impl<'tcx> Cx<'tcx> {
                 let name = tcx.item_name(did);
                 if let Some(tr) = tcx.impl_opt_trait_ref(impl_did) {
                     let tr = tr.instantiate_identity().skip_norm_wip();
-                    return format!("<{} as {}>::{}", self.ty(self_ty), self.raw_path(tr.def_id), name);
+                    let mut st = self.ty(self_ty);
+                    if st.contains("::_::") {
+                        if let ty::Adt(def, _) = self_ty.kind() {
+                            st = self.raw_path(def.did());
+                        }
+                    }
+                    return format!("<{} as {}>::{}", st, self.raw_path(tr.def_id), name);
                 }
                 return match self_ty.kind() {
                     ty::Adt(def, _) => format!("{}::{}", self.raw_path(def.did()), name),
@@ -447,6 +465,15 @@ impl<'a, 'tcx> W<'a, 'tcx> {
             LitKind::Float(s, _) => {
                 j.kstr("lk", "float");
                 j.kstr("v", s.as_str());
+            }
+            LitKind::ByteStr(bytes, _) => {
+                j.kstr("lk", "bytes");
+                j.key("v");
+                j.arr_open();
+                for b in bytes.as_byte_str().iter() {
+                    j.num(*b as i128);
+                }
+                j.arr_close();
             }
             other => {
                 j.kstr("lk", "other");
